@@ -22,6 +22,12 @@ Edit spaces (part-edit1, part-edit2, score-edit): the same clauses on ONE Part /
 through the public API (signatures, measures, notes, rests, quarter duration; alphabet in mc/c05_edit.py) and queried
 again with the same options - every array must be the table of the score as it is when the array is taken.
 
+Tie edit spaces (part-edit-ties1, part-edit-ties2): the same query / edit / query rounds with edits of tie chains that
+were already queried (alphabet in mc/c05_edit.py: resize the last note, move a boundary between members, remove the last
+note, untie, tie a new or an existing note on, rescale the whole part in place by removing every object and adding it again
+at multiplied times) - a chain is one row whose duration is the timeline duration of its members as they are now.
+part-merged (thorough): the note array of the Part that merge_parts makes out of parts with unequal divisions.
+
 Nesting space (score-nest): 1-3 parts distributed in every way over a part list with PartGroups nested to a bounded depth
 (groups of one element included); the array of the list, of the Score made of it and of every group at any level is the
 union of the tables of the parts below it (same id readings as the other score spaces).
@@ -39,7 +45,8 @@ RULE = (
     "cases are enumerated exhaustively per named sub-space (frame x events x option sets; score structures x "
     "division tuples x contents; note arrays over small onset/duration/pitch alphabets); a case is distinct by "
     "construction; non-trivial = the array under test has at least one row; edit spaces: frame x content x every "
-    "sequence of 1-2 edits of the alphabet, the arrays are taken before the first and after every edit"
+    "sequence of 1-2 edits of the alphabet, the arrays are taken before the first and after every edit (tie edit spaces: the "
+    "same with the alphabet of tie chain edits on a content with tie chains and notes that can be tied)"
 )
 ASSUMPTIONS = [
     "parts are built through the public API (Part, add, set_quarter_duration, tie links); the first time point is 0",
@@ -72,6 +79,13 @@ ASSUMPTIONS = [
     "first time point), nor parts whose first measure is shorter than its signature while the length of a beat in "
     "divisions changes during the first beat after time 0 (Part.measure_map takes the position of that beat for the "
     "divisions per beat of the first measure: see proposed_fixes/C05-s-subbeat-pickup.diff)",
+    "tie edit spaces: tie links are the tie_next / tie_prev attributes, set in pairs as the importers set them; a note is "
+    "resized / moved with Part.remove(o, 'start' | 'end') + Part.add(o, start, end); edited chains keep the end of a member at "
+    "the start of the next one and one spelled pitch; a note removed from the part is unlinked first; the in-place rescaling "
+    "is applied to parts with one quarter duration only (a quarter duration set at a later time cannot be taken back)",
+    "part-merged: the inputs are parts with one quarter duration whose notes and rests all state voice and staff (domain of "
+    "merge_parts); the expected table is the union of the input tables with times multiplied to the lcm of the divisions "
+    "(what merge_parts documents); voice and staff (renumbered by merge_parts) are not compared",
 ]
 CHUNK = 40
 
@@ -614,7 +628,7 @@ def eval_edit(case):
     frame = G.get_frame(case["frame"])
     events = E.content_events(frame, case["content"])
     allev = G.rest_events(frame) + G.note_events(frame)
-    spec = G.build_spec(frame, events, G.default_deco(events, allev))
+    spec = G.build_spec(frame, events, E.content_deco(frame, case["content"], events) or G.default_deco(events, allev))
     edits = case["edits"]
     ctx = "frame=%s content=%s edits=%s" % (case["frame"], case["content"], edits)
     ok, part = call(res, "part-built", lambda: ir.build_part(spec), ctx)
@@ -666,6 +680,66 @@ def eval_score_edit(case):
         nrows, L = eval_score_arrays(res, sc, items, st, configs, ctx + " step=%d" % (k + 1))
     res.outcome = "score-edit %s rows=%d lcm=%d" % ("".join(e[0] for e in edits), nrows, L)
     res.nontrivial = nrows > 0
+    return res
+
+
+# ---------------------------------------------------------------------------------------------
+# parts made by the library out of other parts
+
+
+def eval_merged(case):
+    """the note array of the Part returned by merge_parts: its notes are the note objects of the input parts (whose
+    note arrays merge_parts takes before it moves them), re-added at times rescaled to the lcm of the divisions"""
+    from mc import ir
+    import partitura.score as S
+
+    res = CaseResult(states=1, transitions=0, traces=1)
+    items = G.score_items(dict(case, struct="list"))
+    ctx = "merged q=%s contents=%s meter=%s reassign=%s pre=%s" % (case["q"], case["c"], case["meter"], case["reassign"], case["pre"])
+    ok, sc = call(res, "score-built", lambda: ir.build_score({"parts": items}), ctx)
+    if not ok:
+        res.outcome = "build-failed"
+        return res
+    parts = list(sc.parts)
+    L = 1
+    for q in case["q"]:
+        L = R.lcm(L, q)
+    rows = []
+    for p, q in zip(items, case["q"]):
+        m = L // q
+        for r in R.PartRef(p).note_rows():
+            r = dict(r, voice=None, staff=None, divs_pq=L, single_divs=True)  # voices / staves are renumbered
+            r["onset_div"] *= m
+            r["duration_div"] *= m
+            if r["metrical"] is not None:
+                r["metrical"] = [(d, rel * m, tot * m) for d, rel, tot in r["metrical"]]
+            rows.append(r)
+    if case["pre"]:
+        # the parts were in use before they are merged
+        for p in parts:
+            res.transitions += 1
+            call(res, "array-built", lambda: p.note_array(include_grace_notes=True), ctx + " (before merging)")
+    res.transitions += 1
+    ok, merged = call(res, "part-built", lambda: S.merge_parts(parts, reassign=case["reassign"]), ctx)
+    if not ok:
+        res.outcome = "merge-failed"
+        return res
+    for fl in (list(G.NOTE_FLAGS), []):
+        c2 = "%s flags=%s" % (ctx, [f.replace("include_", "") for f in fl])
+        res.transitions += 1
+        if not rows:
+            try:
+                arr = merged.note_array(**kwargs_of(fl))
+            except Exception:
+                continue
+            if len(arr) != 0:
+                res.fail("row-set", expected="0 rows", observed="%d rows" % len(arr), where="Part.note_array", detail=c2)
+            continue
+        ok, arr = call(res, "array-built", lambda: merged.note_array(**kwargs_of(fl)), c2)
+        if ok:
+            check_array(res, arr, rows, fl, "part", "note", "Part.note_array", c2)
+    res.outcome = "merged parts=%d rows=%d lcm=%d ties=%d" % (len(parts), len(rows), L, sum(1 for c in case["c"] if c == 2))
+    res.nontrivial = bool(rows)
     return res
 
 
@@ -754,6 +828,8 @@ def eval_case(case):
         return eval_edit(case)
     if sp == "score-nest":
         return eval_nest(case)
+    if sp == "part-merged":
+        return eval_merged(case)
     if sp.startswith("score"):
         return eval_score(case)
     if sp == "rest-list":
@@ -901,7 +977,37 @@ B_SCORE_EDIT = 8
 def _edit_base(fk, content):
     fr = G.get_frame(fk)
     ev = E.content_events(fr, content)
-    return fr, G.build_spec(fr, ev, G.default_deco(ev, G.rest_events(fr) + G.note_events(fr)))
+    return fr, G.build_spec(fr, ev, E.content_deco(fr, content, ev) or G.default_deco(ev, G.rest_events(fr) + G.note_events(fr)))
+
+
+TIES_KEYPLAN = "chg"
+B_TIES2 = 16
+
+
+def gen_part_edit_ties1(tier):
+    """one edit of the tie alphabet on the content `ties`; quick: every frame with the key plan TIES_KEYPLAN
+    (key signatures play no part in these edits), thorough: every frame"""
+    for fk in G.frame_keys():
+        if tier == "quick" and fk[2] != TIES_KEYPLAN:
+            continue
+        fr, spec = _edit_base(fk, "ties")
+        for e in E.enumerate_tie_edits(spec, fr["grid"], 0):
+            yield dict(sp="part-edit-ties1", frame=fk, content="ties", edits=[e])
+
+
+def gen_part_edit_ties2(block=None):
+    """two edits of the tie alphabet in sequence on the frames of the core division plans with the key plan
+    TIES_KEYPLAN; the block is taken over (frame, first edit): every second edit follows a selected first edit"""
+    for fk in G.frame_keys():
+        if fk[1] not in EDIT_CORE_DIVPLANS or fk[2] != TIES_KEYPLAN:
+            continue
+        fr, spec = _edit_base(fk, "ties")
+        for e1 in E.enumerate_tie_edits(spec, fr["grid"], 0):
+            if block is not None and block_of(dict(frame=fk, first=e1), B_TIES2) != block:
+                continue
+            spec1 = E.apply_edit_spec(spec, e1)
+            for e2 in E.enumerate_tie_edits(spec1, E.grid_after(fr["grid"], e1), 1):
+                yield dict(sp="part-edit-ties2", frame=fk, content="ties", edits=[e1, e2])
 
 
 def gen_part_edit1(block=None):
@@ -947,6 +1053,28 @@ def gen_score_edit(block=None):
                             cs = dict(base, sp="score-edit", p=p, edits=[e])
                             if block is None or block_of(cs, B_SCORE_EDIT) == block:
                                 yield cs
+
+
+def merge_contents():
+    """contents in which every note and rest states its voice and staff (merge_parts renumbers them)"""
+    return [i for i, c in enumerate(G.CONTENTS) if all(e[4] is not None and e[5] is not None for e in c["ev"])]
+
+
+def gen_part_merged():
+    """thorough tier only: one merge_parts call costs as much as ~100 note arrays (it iterates over every class of the
+    interpreter) and the cases of a space are handed out in chunks of CHUNK; what merge_parts does to the notes
+    (query, remove, re-add at rescaled times) is the edit x* of the tie alphabet, which the quick tier enumerates"""
+    for q in G.DIVS2:
+        for c in product(merge_contents(), repeat=2):
+            if any(qq % G.CONTENTS[cc]["need"] for qq, cc in zip(q, c)):
+                continue
+            for meter in ("34", "34pk"):
+                for reassign in ("voice", "staff"):
+                    yield dict(sp="part-merged", q=list(q), c=list(c), meter=meter, reassign=reassign,
+                               pre=(q[0] + c[0] + c[1] + len(meter)) % 2)
+    for q in NEST_DIVS3:
+        for c in product([0, 1, 2], repeat=3):
+            yield dict(sp="part-merged", q=list(q), c=list(c), meter="34pk", reassign="voice", pre=sum(c) % 2)
 
 
 def gen_score1():
@@ -1117,6 +1245,34 @@ def spaces(tier, seed):
         out.append(Space("score-edit", lambda: gen_score_edit(None), True,
                          "Score / list / PartGroup of 2 parts (divisions (2,3), (4,6), (2,2) x contents {2,3,4}^2 x pickup): query, one edit "
                          "of the same alphabet (grid = barlines) in either part, query again"))
+    tb = ("tie chains that were queried before they change, on one Part object (same query rounds as part-edit1); content: a "
+          "chain of 2-3 notes from the start (over barlines / division changes of the frame), a note of its pitch right after "
+          "it, two adjacent untied notes of one pitch, a chain that ends with the part, a rest, a grace note; edits (tie links "
+          "set as the importers do, chains stay without gaps): move the end of the last note of every chain to every grid "
+          "point and by one division either way, move the boundary between every two adjacent members likewise, remove the "
+          "last note of a chain, untie at every link, tie a new note onto every chain and the first untied note (to the next "
+          "grid point / the end of the part), tie every two notes of one pitch that meet, rescale the part in place (remove "
+          "every object, quarter duration x2 / x3, add the same objects at x2 / x3 their times), quarter duration x2 / x3")
+    if tier == "quick":
+        out.append(Space("part-edit-ties1", lambda: gen_part_edit_ties1("quick"), True,
+                         tb + "; every single edit on every frame with the key plan '%s'" % TIES_KEYPLAN))
+        b = seed % B_TIES2
+        out.append(Space("part-edit-ties2", lambda b=b: gen_part_edit_ties2(b), True,
+                         "two edits of the tie alphabet in sequence (three query rounds), frames of " + core + " with the key plan '%s': "
+                         "every second edit after the first edits of block %d of %d (hash of frame, first edit)" % (TIES_KEYPLAN, b, B_TIES2)))
+    else:
+        out.append(Space("part-edit-ties1", lambda: gen_part_edit_ties1("thorough"), True, tb + "; every single edit on every frame"))
+        out.append(Space("part-edit-ties2", lambda: gen_part_edit_ties2(None), True,
+                         "every sequence of two edits of the tie alphabet (three query rounds) on the frames of " + core +
+                         " with the key plan '%s'" % TIES_KEYPLAN))
+    if tier != "quick":
+        out.append(Space("part-merged", gen_part_merged, True,
+                         "the Part returned by merge_parts (its notes are the note objects of the inputs, whose note arrays "
+                         "merge_parts takes before it re-adds them at times rescaled to the lcm of the divisions): note array with "
+                         "all options and with none against the tables of the input parts rescaled to the lcm; every note states "
+                         "voice and staff; half of the cases take the note arrays of the inputs first; 2 parts: divisions %s x "
+                         "contents %s^2 x pickup x reassign voice / staff; 3 parts: divisions %s x contents {0,1,2}^3, pickup "
+                         "(thorough tier only: a merge_parts call costs ~0.2 s)" % (G.DIVS2, merge_contents(), NEST_DIVS3)))
     out.append(Space("score1", gen_score1, True, "1 part as Score / list / Score of a group / PartGroup: divisions {1,2,3,4,6} x contents x pickup"))
     out.append(Space("score2", gen_score2, True,
                      "2 parts: divisions %s x contents^2 (%d contents) x {no pickup, pickup} x structures %s; "
